@@ -733,7 +733,7 @@ class Emit:
         if k in ("num","str","char","byte","path"): return True
         if k in ("return","break","continue","try","assign","for","while","loop"): return False
         if k == "macro":
-            return ".".join(e[1]) in ("matches",) or "::".join(e[1]) in ("matches",)
+            return "::".join(e[1]) in ("matches", "format", "vec")
         if k == "block":
             return not e[1] and e[2] is not None and self.pure_expr(e[2])
         if k == "if":
